@@ -43,3 +43,79 @@ Proof.
   apply Closed_edit_byte_interval.
   eapply Closed_remove_block; eauto.
 Qed.
+
+(* ... a deletion that does not reach the end of the block: the second split is a split in the middle, which leaves the middle block
+   with one edge only, the fallthrough to the tail -- so the "does not both call and return" condition holds by itself *)
+Lemma bkind_code s b : is_code s b = true -> bk (the_blk s b) = KCode.
+Proof.
+  unfold is_code, the_blk. destruct (aget b (blocks s)) as [x|]; [|discriminate].
+  destruct (bk x); cbn; congruence.
+Qed.
+
+Theorem Closed_inner_deletion s b offset length end1 ft1 s1 end2 ft2 s2 r s3 bi :
+  Closed s -> live s (NB b) -> is_code s b = true ->
+  split_block s b offset = Ok (end1, ft1, s1) ->
+  split_block s1 end1 length = Ok (end2, ft2, s2) ->
+  length <> bsize (the_blk s1 end1) ->
+  remove_block s2 end1 false = Ok (r, s3) ->
+  (forall n, snd (adjacent_blocks s2 end1) = Some n -> live s2 (NB n) /\ n <> end1) ->
+  Closed (edit_byte_interval s3 bi (boff (the_blk s3 b) + offset) length [] [b]).
+Proof.
+  intros HC Hb Hcode E1 E2 Hne E3 Hnx.
+  eapply Closed_partial_deletion; eauto.
+  intros (e & He & Hcall) _.
+  destruct (is_code_split_tail _ _ _ _ _ _ E1 Hcode) as (Hc1 & _).
+  pose proof (split_block_spec _ _ _ _ _ _ E1) as (-> & _ & _ & N1 & _).
+  pose proof (split_block_spec _ _ _ _ _ _ E2) as (-> & _).
+  apply out_edges_In in He as (Hin & Hsrc).
+  assert (Hlt : (next s < next s1)%nat) by lia.
+  destruct (split_block_mid_edges _ _ _ _ _ _ E2 Hlt (bkind_code _ _ Hc1) Hne) as (_ & Hedges).
+  apply Hedges in Hin as [(_ & B)|[(e0 & _ & _ & ->)| ->]].
+  - apply B. exact Hsrc.
+  - cbn in Hsrc. lia.
+  - discriminate Hcall.
+Qed.
+
+(* ---- the successor of a block that was just split is its tail (or the block is in no order list at all): the neighbour condition
+        of the middle block needs no hypothesis either ---- *)
+Lemma adjacent_insert_after b n l : forall prev n',
+  snd (adjacent b prev (insert_after b [n] l)) = Some n' -> n' = n.
+Proof.
+  induction l as [|x t IH]; intros prev n' H; cbn [insert_after adjacent] in H; [discriminate|].
+  destruct (Nat.eqb x b) eqn:E.
+  - cbn [adjacent app] in H. rewrite E in H. cbn [snd] in H. congruence.
+  - cbn [adjacent] in H. rewrite E in H. eapply IH. exact H.
+Qed.
+
+Lemma split_block_successor s b off nb ft s' n :
+  split_block s b off = Ok (nb, ft, s') -> snd (adjacent_blocks s' b) = Some n -> n = nb.
+Proof.
+  intros E H. unfold split_block in E. destruct (negb _); [discriminate|]. unfold fresh in E. cbn [fst snd] in E.
+  destruct (split_cfg _ _ _ _ _) as [added s4]. injection E as <- _ <-.
+  unfold adjacent_blocks in H.
+  match type of H with context [order_insert_after ?Y b [next s]] => set (Y0 := Y) in * end.
+  unfold order_insert_after in H.
+  destruct (block_section Y0 b) as [sec|] eqn:S.
+  - assert (S' : block_section (set_order Y0 (aset sec (insert_after b [next s] (sect_order Y0 sec)) (order Y0))) b = Some sec) by exact S.
+    rewrite S' in H. unfold sect_order at 1 in H. cbn [order set_order] in H. rewrite aget_aset_same in H.
+    eapply adjacent_insert_after. exact H.
+  - rewrite S in H. discriminate.
+Qed.
+
+Theorem Closed_inner_deletion' s b offset length end1 ft1 s1 end2 ft2 s2 r s3 bi :
+  Closed s -> live s (NB b) -> is_code s b = true ->
+  split_block s b offset = Ok (end1, ft1, s1) ->
+  split_block s1 end1 length = Ok (end2, ft2, s2) ->
+  length <> bsize (the_blk s1 end1) ->
+  remove_block s2 end1 false = Ok (r, s3) ->
+  Closed (edit_byte_interval s3 bi (boff (the_blk s3 b) + offset) length [] [b]).
+Proof.
+  intros HC Hb Hcode E1 E2 Hne E3.
+  eapply Closed_inner_deletion; eauto.
+  intros n Hn. apply (split_block_successor _ _ _ _ _ _ _ E2) in Hn. subst n.
+  destruct (live_split_block _ _ _ _ _ _ E1 Hb) as (_ & _ & Le1).
+  destruct (live_split_block _ _ _ _ _ _ E2 Le1) as (_ & _ & Le2).
+  split; [exact Le2|].
+  pose proof (split_block_spec _ _ _ _ _ _ E1) as (-> & _ & _ & N1 & _).
+  pose proof (split_block_spec _ _ _ _ _ _ E2) as (-> & _). lia.
+Qed.
